@@ -160,6 +160,32 @@ pub fn execute(sc: &Arc<Scenario>, kind: SchedKind, sched_seed: u64, hash_seed: 
     ExecResult { outcome: r.outcome, rec: r.rec, sched: r.sched, out: o }
 }
 
+pub fn repo_src_hash() -> String {
+    fn walk(dir: &std::path::Path, out: &mut Vec<std::path::PathBuf>) {
+        if let Ok(rd) = std::fs::read_dir(dir) {
+            for e in rd.flatten() {
+                let p = e.path();
+                if p.is_dir() {
+                    walk(&p, out);
+                } else {
+                    out.push(p);
+                }
+            }
+        }
+    }
+    let root = std::env::var("VERIF_REPO").unwrap_or_else(|_| "/repo".into());
+    let mut files = Vec::new();
+    walk(std::path::Path::new(&format!("{}/src", root)), &mut files);
+    files.sort();
+    let mut h = 0u64;
+    for f in files {
+        if let Ok(b) = std::fs::read(&f) {
+            h = mix2(h, crate::util::fnv(&b) ^ hash_str(&f.to_string_lossy()));
+        }
+    }
+    format!("{:016x}", h)
+}
+
 pub fn history_digest(log: &[Rec]) -> u64 {
     let mut h: u64 = 0xcbf2_9ce4_8422_2325;
     for r in log {
@@ -188,6 +214,9 @@ pub struct ReplayFile {
     pub randoms: Vec<u64>,
     pub context_switches: usize,
     pub history_digest: String,
+    /// hash of /repo/src at recording time: a replay that diverges on the *same* tree is a harness error
+    #[serde(default)]
+    pub repo_src_hash: String,
     pub outcome: Outcome,
     pub scenario: Scenario,
 }
@@ -427,6 +456,7 @@ pub fn write_replay(dir: &str, prop: &str, verif_seed: u64, widx: u64, sidx: usi
         randoms: f.exec.sched.randoms.clone(),
         context_switches: f.exec.sched.context_switches,
         history_digest: format!("{:016x}", history_digest(&f.exec.rec.log)),
+        repo_src_hash: repo_src_hash(),
         outcome: f.exec.outcome.clone(),
         scenario: (*f.sc).clone(),
     };
